@@ -1,13 +1,15 @@
 #!/bin/bash
-# usage: tools/scratch_repo.sh DIR [--revert COMMIT]... [--apply PATCH]...
+# usage: tools/scratch_repo.sh DIR [--at COMMIT] [--revert COMMIT]... [--apply PATCH]...
 # Makes a scratch copy of /repo's HEAD (committed state) under DIR (must be outside /repo and /verif),
 # optionally with fix commits reverted or patches applied. Use it with  PLINIO_SRC=DIR ./check Cxx ...
 # (evidence and replays then go to $VERIF_OUT, default DIR/verif_out, never to /verif). Remove DIR when done.
 set -e
 d="$1"; shift
+at=HEAD
+if [ "$1" = "--at" ]; then at="$2"; shift 2; fi
 case "$d" in /repo*|/verif*) echo "scratch dir must be outside /repo and /verif" >&2; exit 2;; esac
 rm -rf "$d"; mkdir -p "$d"
-git -C /repo archive HEAD | tar -x -C "$d"
+git -C /repo archive "$at" | tar -x -C "$d"
 while [ $# -gt 0 ]; do
   case "$1" in
     --revert) git -C /repo show "$2" | (cd "$d" && patch -R -p1 -s); shift 2;;
